@@ -395,9 +395,27 @@ impl Shifts {
         // arbitrary (mostly exterior) vectors
         let n = self.kind.numel_pub();
         let mut d = Digits(id);
-        let mag = *d.pick(&[1.0, 1e-6, 1e6, 0.0]);
-        let pat = d.take(5);
+        let mag = *d.pick(&[1.0, 1e-6, 1e6, 0.0, 1e12, 1e17, 4e16]);
+        let pat = d.take(8);
         let mk = |shift: usize| -> Vec<f64> {
+            if pat >= 5 {
+                // badly scaled: one entry of size `mag` (negative / positive / negative in the last place)
+                // among entries of ordinary size
+                return (0..n)
+                    .map(|i| {
+                        let big = match pat {
+                            5 => i == 0,
+                            6 => i == 0,
+                            _ => i == n - 1,
+                        };
+                        if big {
+                            if pat == 6 { mag } else { -mag }
+                        } else {
+                            (((i + shift) % 3) as f64 + 1.0) * if pat == 6 { -1.0 } else { 1.0 }
+                        }
+                    })
+                    .collect();
+            }
             (0..n)
                 .map(|i| {
                     mag * match pat {
@@ -424,7 +442,7 @@ impl Space for Shifts {
         format!("shift-to-interior-{:?}", self.kind)
     }
     fn size(&self) -> u64 {
-        4 * 5
+        7 * 8
     }
     fn describe(&self, id: u64) -> Value {
         let (s, z) = self.vecs(id);
